@@ -254,6 +254,36 @@ class Scenario:
         return "\n".join(o) + "\n"
 
 
+class RawScenario:
+    """A stored scenario file (scenarios/*.scn: executions that once exposed a fault of the machinery) with a new scenario number."""
+
+    def __init__(self, sid, path):
+        import re as _re
+        txt = open(path).read()
+        self.sid = sid
+        self._text = _re.sub(r"^scenario \d+", "scenario %d" % sid, txt, count=1, flags=_re.M)
+        m = _re.search(r"^qcap (\d+)", txt, _re.M)
+        self.qcap = int(m.group(1)) if m else 1
+        self.lines = [l for l in txt.splitlines() if l and not l.startswith(("cmd ", "var ", "group ", "xcmd "))]
+        self._ncmds = sum(1 for l in txt.splitlines() if l.startswith(("cmd ", "xcmd ")))
+        self.meta = {"family": "regress", "sig": ("regress", os.path.basename(path))}
+        self.xcmds = []
+
+    def cmds(self):
+        return [None] * self._ncmds
+
+    def text(self):
+        return self._text
+
+
+def fam_regress(prefix):
+    """stored scenarios scenarios/<prefix>*.scn (n is ignored)"""
+    def g(rng, sid0, n):
+        import glob as _glob
+        return [RawScenario(sid0 + i, p) for i, p in enumerate(sorted(_glob.glob(os.path.join(VERIF, "scenarios", prefix + "*.scn"))))]
+    return g
+
+
 def write_scenarios(path, scenarios):
     with open(path, "w") as f:
         for s in scenarios:
